@@ -26,6 +26,7 @@ Menu(t) ==
       [] t.k = "Zero" -> {Zeros(t.n)}
       [] t.k = "One" -> {NatBits(1, t.n)}
       [] t.k = "UMax" -> {NatBits(x, t.n) : x \in 0..t.m}
+      [] t.k = "URange" -> {NatBits(t.lo, t.n), NatBits(t.hi, t.n), NatBits((t.lo + t.hi) \div 2, t.n), NatBits(t.lo + 1, t.n)}
       [] t.k = "UPos" -> {NatBits(1, t.n), Ones(t.n), Msb(t.n)}
       [] t.k = "Bool" -> {<<0>>, <<1>>}
       [] t.k = "VarU" -> {<<>>, <<1>>, <<128>>, <<0, 5>>, Rep(t.n - 1, 255)}
@@ -38,9 +39,9 @@ Menu(t) ==
                         [grams |-> <<>>, other |-> <<[k |-> Zeros(32), v |-> <<>>], [k |-> Ones(32), v |-> <<1, 0>>]>>]}
       [] t.k \in {"RefCell", "RefAny"} -> {CellA, CellB}
       [] t.k = "AnyRest" -> {CellA, CellC, CellB}
-IsLeaf(t) == t.k \in {"Zero", "One", "UMax", "UPos", "U", "I", "Bits", "Bool", "VarU", "VarI", "Leq", "AddrInt", "AddrExt", "CC", "RefCell", "RefAny", "AnyRest"}
+IsLeaf(t) == t.k \in {"Zero", "One", "UMax", "UPos", "URange", "U", "I", "Bits", "Bool", "VarU", "VarI", "Leq", "AddrInt", "AddrExt", "CC", "RefCell", "RefAny", "AnyRest"}
 Base(t) ==
-    CASE IsLeaf(t) -> (CASE t.k \in {"U", "I", "Bits", "Zero", "UMax"} -> Zeros(t.n) [] t.k \in {"One", "UPos"} -> NatBits(1, t.n) [] t.k = "Bool" -> <<0>> [] t.k \in {"VarU", "VarI"} -> <<>>
+    CASE IsLeaf(t) -> (CASE t.k \in {"U", "I", "Bits", "Zero", "UMax"} -> Zeros(t.n) [] t.k \in {"One", "UPos"} -> NatBits(1, t.n) [] t.k = "URange" -> NatBits(t.lo, t.n) [] t.k = "Bool" -> <<0>> [] t.k \in {"VarU", "VarI"} -> <<>>
                          [] t.k = "Leq" -> Zeros(BitLen(t.n)) [] t.k = "AddrInt" -> AddrA [] t.k = "AddrExt" -> <<>>
                          [] t.k = "CC" -> CC0 [] t.k \in {"RefCell", "RefAny"} -> CellA [] t.k = "AnyRest" -> CellA)
       [] t.k = "Maybe" -> <<>>
@@ -54,7 +55,7 @@ Base(t) ==
       [] t.k = "HmAug" -> AugV(<<[k |-> Zeros(t.n), v |-> Base(t.t), x |-> Base(t.x)]>>)
       [] t.k = "HmAugE" -> [es |-> <<>>, post |-> <<>>, rx |-> Base(t.x)]
       [] t.k \in {"If", "IfBit"} -> Base(t.t)                     \* present in the record, encoded only when the flag is set
-      [] t.k = "RefPick" -> [v0 |-> Base(t.t0), v1 |-> Base(t.t1)]
+      [] t.k \in {"RefPick", "Pick"} -> [v0 |-> Base(t.t0), v1 |-> Base(t.t1)]
 FieldOf(a, x) == (CHOOSE i \in 1..Len(a.fs) : a.fs[i].name = x)
 BaseAlt(a) == [x \in {"c"} \cup {a.fs[i].name : i \in 1..Len(a.fs)} |-> IF x = "c" THEN a.c ELSE Base(a.fs[FieldOf(a, x)].t)]
 Vary(t) ==
@@ -81,7 +82,7 @@ Vary(t) ==
                             [es |-> <<[k |-> Msb(t.n), v |-> Rich(t.t, 2), x |-> Rich(t.x, 1)]>>, post |-> <<>>, rx |-> Base(t.x)],
                             [es |-> <<[k |-> Zeros(t.n), v |-> Base(t.t), x |-> Rich(t.x, 1)], [k |-> NatBits(1, t.n), v |-> Rich(t.t, 2), x |-> Base(t.x)],
                                       [k |-> Ones(t.n), v |-> Base(t.t), x |-> Base(t.x)]>>, post |-> <<>>, rx |-> Rich(t.x, 1)]}
-      [] t.k = "RefPick" -> {[v0 |-> x, v1 |-> Base(t.t1)] : x \in Vary(t.t0)} \cup {[v0 |-> Base(t.t0), v1 |-> x] : x \in Vary(t.t1)}
+      [] t.k \in {"RefPick", "Pick"} -> {[v0 |-> x, v1 |-> Base(t.t1)] : x \in Vary(t.t0)} \cup {[v0 |-> Base(t.t0), v1 |-> x] : x \in Vary(t.t1)}
 \* vary one field at a time; a conditional field is also varied with its flag switched on
 SetFlag(a, rec, f) == CASE f.t.k = "If" -> [rec EXCEPT ![f.t.fl] = <<1>>]
                         [] f.t.k = "IfBit" -> [rec EXCEPT ![f.t.fl] = [i \in 1..Len(@) |-> IF i = Len(@) - f.t.bit THEN 1 ELSE @[i]]]
@@ -91,7 +92,8 @@ VaryAltAll(a) == {BaseAlt(a)}
     \cup UNION {{[BaseAlt(a) EXCEPT ![a.fs[i].name] = x] : x \in Vary(a.fs[i].t)} : i \in 1..Len(a.fs)}
     \cup UNION {{SetFlag(a, [BaseAlt(a) EXCEPT ![a.fs[i].name] = x], a.fs[i]) : x \in Vary(a.fs[i].t)} :
                     i \in {j \in 1..Len(a.fs) : a.fs[j].t.k \in {"If", "IfBit"}}}
-    \cup UNION {{[BaseAlt(a) EXCEPT ![a.fs[i].t.fl] = <<1>>]} : i \in {j \in 1..Len(a.fs) : a.fs[j].t.k = "RefPick"}}
+    \cup UNION {{[BaseAlt(a) EXCEPT ![a.fs[i].t.fl] = <<1>>]} : i \in {j \in 1..Len(a.fs) : a.fs[j].t.k \in {"RefPick", "Pick"}}}
+    \cup UNION {{[[BaseAlt(a) EXCEPT ![a.fs[i].t.fl] = <<1>>] EXCEPT ![a.fs[i].name] = x] : x \in Vary(a.fs[i].t)} : i \in {j \in 1..Len(a.fs) : a.fs[j].t.k \in {"RefPick", "Pick"}}}
 Values(nm) == Vary(Named(nm))
 
 \* ---- a second base value: every leaf non-zero and distinctive, every optional part present, the LAST alternative of every
@@ -103,6 +105,7 @@ RichLeaf(t) ==
       [] t.k = "Zero" -> Zeros(t.n)
       [] t.k = "One" -> NatBits(1, t.n)
       [] t.k = "UMax" -> NatBits(t.m, t.n)
+      [] t.k = "URange" -> NatBits(t.hi, t.n)
       [] t.k = "Bool" -> <<1>>
       [] t.k = "VarU" -> IF t.n > 2 THEN <<2, 77>> ELSE <<5>>
       [] t.k = "VarI" -> IF t.n > 2 THEN <<255, 3>> ELSE <<251>>
@@ -125,18 +128,18 @@ Rich(t, fuel) ==
                                  [k |-> Ones(t.n), v |-> Base(t.t), x |-> Base(t.x)]>>)
       [] t.k = "HmAugE" -> [es |-> <<[k |-> [i \in 1..t.n |-> IF i = 1 THEN 0 ELSE (IF i % 3 = 0 THEN 0 ELSE 1)], v |-> Rich(t.t, fuel), x |-> Rich(t.x, 1)],
                                       [k |-> Ones(t.n), v |-> Base(t.t), x |-> Base(t.x)]>>, post |-> <<>>, rx |-> Rich(t.x, 1)]
-      [] t.k = "RefPick" -> [v0 |-> Rich(t.t0, fuel), v1 |-> Rich(t.t1, fuel)]
+      [] t.k \in {"RefPick", "Pick"} -> [v0 |-> Rich(t.t0, fuel), v1 |-> Rich(t.t1, fuel)]
 RichAlt(a, fuel) == [x \in {"c"} \cup {a.fs[i].name : i \in 1..Len(a.fs)} |-> IF x = "c" THEN a.c ELSE Rich(a.fs[FieldOf(a, x)].t, fuel)]
 RichFuel == 3
 \* one factor at a time around the rich base (all flags are set in it, so conditional fields are encoded)
 RichVary(a) == {RichAlt(a, RichFuel)} \cup UNION {{[RichAlt(a, RichFuel) EXCEPT ![a.fs[i].name] = x] : x \in Vary(a.fs[i].t)} : i \in 1..Len(a.fs)}
 \* every combination of optional parts (Maybe, HashmapE, flag?T, ^(T flag)) present / absent around the rich base;
 \* beyond 6 optional parts: all combinations with at most two present or at most two absent
-OptIdx(a) == {i \in 1..Len(a.fs) : (a.fs[i].t.k \in {"Maybe", "HmE", "If", "IfBit", "RefPick"} /\ ~(a.fs[i].t.k = "Maybe" /\ a.fs[i].t.t.k = "RefAny"))
+OptIdx(a) == {i \in 1..Len(a.fs) : (a.fs[i].t.k \in {"Maybe", "HmE", "If", "IfBit", "RefPick", "Pick"} /\ ~(a.fs[i].t.k = "Maybe" /\ a.fs[i].t.t.k = "RefAny"))
                                     \/ (a.fs[i].t.k = "Ref" /\ a.fs[i].t.t.k = "HmAugE")}
 Absent(rec, f) == CASE f.t.k \in {"Maybe", "HmE"} -> [rec EXCEPT ![f.name] = <<>>]
                     [] f.t.k = "Ref" -> [rec EXCEPT ![f.name] = [es |-> <<>>, post |-> <<>>, rx |-> @.rx]]
-                    [] f.t.k \in {"If", "RefPick"} -> [rec EXCEPT ![f.t.fl] = <<0>>]
+                    [] f.t.k \in {"If", "RefPick", "Pick"} -> [rec EXCEPT ![f.t.fl] = <<0>>]
                     [] f.t.k = "IfBit" -> [rec EXCEPT ![f.t.fl] = [i \in 1..Len(@) |-> IF i = Len(@) - f.t.bit THEN 0 ELSE @[i]]]
 OptCombos(a) ==
     LET OI == OptIdx(a)
